@@ -205,11 +205,33 @@ func prop(c Case) (out pbt.Outcome) {
 		case "add_bond_bad":
 			// endpoints that do not exist (index one past every port count) or two endpoints of the same kind
 			var a, b string
-			switch op.A % 3 {
+			switch op.A % 5 {
 			case 0:
 				a, b = fmt.Sprintf("p%di0", len(m.procs)+op.B), "i0"
 			case 1:
 				a, b = fmt.Sprintf("o%d", m.outputs), fmt.Sprintf("i%d", m.inputs)
+			case 3:
+				// an existing sink (bonded or not) and a source that does not exist (a name one past the count: what
+				// a stale name looks like after a renumbering): the bond the sink already has is not the one named
+				if len(preIn) >= 1 {
+					a = preIn[op.B%len(preIn)]
+					b = []string{fmt.Sprintf("i%d", m.inputs), fmt.Sprintf("p%do0", len(m.procs)), "nosuch"}[(op.A/5)%3]
+					if _, had := m.bonds[a]; had {
+						labels["add_bond_bad:bonded-sink+missing-source"] = true
+					}
+				} else {
+					a, b = "x", "y"
+				}
+			case 4:
+				// two sinks: no source named
+				if len(preIn) >= 1 {
+					a, b = preIn[op.B%len(preIn)], preIn[(op.A/5)%len(preIn)]
+					if _, had := m.bonds[a]; had {
+						labels["add_bond_bad:two-sinks-one-bonded"] = true
+					}
+				} else {
+					a, b = "x", "y"
+				}
 			default:
 				if len(preOut) >= 1 {
 					a, b = preOut[op.B%len(preOut)], preOut[op.A%len(preOut)] // two sources: no sink named
